@@ -8,6 +8,7 @@ adversarial u (0, 1-2^-53, 1/2, seeded) or forced to the upper endpoint.
 from __future__ import annotations
 
 import math
+import sys
 from fractions import Fraction
 
 from .. import env
@@ -49,6 +50,10 @@ PARAMS = [
     (3.0, 1e6),
     (1e-9, 1e-6),
     (1.0, 1.7976931348623157e308),
+    # "no cap": max_s = inf satisfies 0 <= base_s <= max_s
+    (0.25, math.inf),
+    (1.0, math.inf),
+    (0.0, math.inf),
 ]
 K = ErrorClass.TRANSIENT
 
@@ -145,6 +150,8 @@ def ref_cap(base, g, attempt, max_s):
     if base == 0.0 or max_s == 0.0:
         return 0.0
     lb = math.log2(base) + attempt * math.log2(g)
+    if max_s == math.inf and lb > 1025:
+        return math.inf  # no cap configured and base * g**attempt is beyond float range: the exact cap has no float
     if lb > math.log2(max_s) + 1:
         return max_s
     exact = Fraction(base) * Fraction(g) ** attempt
@@ -252,6 +259,12 @@ def _jitter_case(ctx, viol, draws, name, f, fn, g, base, mx, attempt, prev, mode
         return
     case["result"] = r
     case["draw_seen"] = draws.last
+    if name != "decorrelated_jitter" and mx == math.inf and isinstance(r, (int, float)) and ref_cap(base, g, attempt, mx) == math.inf:
+        # the exact cap exceeds every float: all that can be asked is that the strategy answers (no exception, no NaN) and saturates
+        ctx.cnt["uncapped_strategy_beyond_float_range"] += 1
+        if r != r or r < sys.float_info.max / 4.0:
+            viol(name + "-outside-envelope", f"{name} returned {r!r} although min(max_s, base*g^attempt) exceeds float range for {case}", case)
+        return
     if not isinstance(r, (int, float)) or not math.isfinite(r):
         viol("non-finite-delay", f"{name} returned {r!r} for {case}", case)
         return
